@@ -63,7 +63,8 @@ def units(tier, seed):
     if tier == "thorough":
         fams += ["perm6"]
         pool = list(dict.fromkeys(pool + [f for f in c06.pool("quick") if "lv" not in f or True]))
-    return [[{"formula": f, "family": fam, "tier": tier}] for f in pool for fam in fams] + [[{"formula": f, "family": fam, "tier": tier}] for f in ENVONLY for fam in ("index", "columns")]
+    large = ["y ~ x + (x|g)", "y ~ (0 + f|g) + (1|h)", "y ~ f:g + scale(x)", "y ~ (scale(x)|g:h) + f", "y ~ o + (1|cs)", "f ~ x + (1|g)", "y ~ bs(x, df=4) + (center(x)|h)", "y ~ 0 + f:x + (f|g)"]
+    return [[{"formula": f, "family": "large", "tier": tier}] for f in large] + [[{"formula": f, "family": fam, "tier": tier}] for f in pool for fam in fams] + [[{"formula": f, "family": fam, "tier": tier}] for f in ENVONLY for fam in ("index", "columns")]
 
 
 def expand(unit):
@@ -169,6 +170,10 @@ def check_case(case, acc):
     nan = fam.endswith("-nan")
     fam = fam.replace("-nan", "")
     D = base(n, nan)
+    if fam == "large":  # 1500 rows (the 8 rows over and over, x and z shifted a little from block to block)
+        D = pd.concat([D] * 188, ignore_index=True).iloc[:1500].copy()
+        D["x"] = D["x"] + (np.arange(1500) // 8) * 0.001
+        D["z"] = D["z"] + (np.arange(1500) // 8) * 0.002
     probe = base(8).iloc[[6, 1, 4]].reset_index(drop=True) if f not in ENVONLY else base(8)  # caller arrays have 8 entries
     if "u" in f.replace("up(", ""):  # the observation-level factor: the probe can only hold rows the design has seen
         probe = base(n).iloc[[n - 1, 1, 3]].reset_index(drop=True)
@@ -238,6 +243,11 @@ def check_case(case, acc):
             perms = [p for p in itertools.permutations(range(n)) if p != tuple(range(n))]
         for p in perms:
             variants.append((f"rows {list(p)}", D.iloc[list(p)].reset_index(drop=True), list(p), False))
+    elif fam == "large":
+        rng = np.random.RandomState(4)
+        for what, p in (("reversed", list(range(1499, -1, -1))), ("rotated by 7", list(range(7, 1500)) + list(range(7))), ("shuffled", rng.permutation(1500).tolist()),
+                        ("halves swapped at 1024", list(range(1024, 1500)) + list(range(1024)))):
+            variants.append((f"1500 rows {what}", D.iloc[p].reset_index(drop=True), p, False))
     elif fam == "index":
         for nm, ix in indexes(n).items():
             d2 = D.copy()
